@@ -538,10 +538,8 @@ fn check_step(c: &Ctx<'_>, stats: &mut RunStats, models_fix: &mut Option<Option<
     if alloc_failure {
         let needed = needed_capacity(op, pre_len);
         if !fault && needed <= c.limit {
-            let mut p = vec!["C01"];
-            if op.size_arg().is_some() {
-                p.push("C06");
-            }
+            // (not C06: that property allows either outcome for every size, it only forbids damage)
+            let p = vec!["C01"];
             return Some(c.plain(
                 &p,
                 "spurious_alloc_failure",
